@@ -57,7 +57,7 @@ STACKS = {
 }
 SPACING = 0.2             # lattice spacing in units of the smallest width of the cell as given
 JITS = (0.25, 0.03)       # jitter amplitude in units of the spacing
-GAP_C = 4                 # a bond is judged only if the second-best image is longer by > GAP_C * tol_disp
+GAP_C = 8                 # a bond is judged only if the second-best image is longer by > GAP_C * tol_disp (= 64 eps32 S)
 MAXV = 2
 
 
@@ -201,7 +201,7 @@ def _job(spec):
                 eb[f] = gc.tol_disp(plain[f], Vst[f][None])
                 hw = 0.5 * grids.cell_widths(Vst[f]).min()
                 unique = (mi["d2"] - mi["d"]) > GAP_C * eb[f]
-                dom = np.ones((n, n), bool) if ortho[f] else (mi["d"] < hw)
+                dom = np.ones((n, n), bool) if ortho[f] else gc.in_domain(mi["d"], hw, eb[f])[0]
                 okb[f] = unique & dom
                 off = ~np.eye(n, dtype=bool)
                 acc.n["bonds"] += int(off.sum())
@@ -413,7 +413,7 @@ def _named_job(var):
                         for m in range(3):
                             for f in range(2):
                                 ok[f] &= (mi[m][f]["d2"] - mi[m][f]["d"] > GAP_C * eb[m][f]) & \
-                                         ((mi[m][f]["d"] < hw) | menu[cn]["ortho"])
+                                         (gc.in_domain(mi[m][f]["d"], hw, eb[m][f])[0] | menu[cn]["ortho"])
                     else:
                         b = pl
                         eb = [gc.tol_disp(p) for p in pl]
